@@ -27,6 +27,9 @@ pub enum Case {
         /// second parent; when `None` the complement of p1 (so the source of every child bit is observable)
         p2: Option<Vec<bool>>,
         script: Vec<u64>,
+        /// gene type of the `Vec<T>` impls, see `GENE_KINDS`
+        #[serde(default)]
+        gene: u8,
     },
     Gene {
         a: Vec<bool>,
@@ -60,24 +63,54 @@ enum RecOut {
     OtherErr(String),
 }
 
+/// gene types of different widths and ownership for the generic `Vec<T>` impls
+pub const GENE_KINDS: u8 = 4;
+pub const GENE_KIND_NAMES: [&str; 4] = ["(u8, u32)", "(u8, u32, [u64; 3]) (40 bytes)", "String", "Box<(u8, u32)>"];
+
 fn recombine_vec<R: rand::Rng>(two_point: bool, tuple: bool, n1: usize, n2: usize, rng: &mut R) -> RecOut {
-    let p1: Vec<Tag> = (0..n1 as u32).map(|i| (1, i)).collect();
-    let p2: Vec<Tag> = (0..n2 as u32).map(|i| (2, i)).collect();
-    let r = match (two_point, tuple) {
-        (true, false) => TwoPointXo.recombine([p1, p2], rng),
-        (true, true) => TwoPointXo.recombine((p1, p2), rng),
-        (false, false) => UniformXo.recombine([p1, p2], rng),
-        (false, true) => UniformXo.recombine((p1, p2), rng),
-    };
-    match r {
-        Ok(child) => RecOut::Child(
-            child
-                .iter()
-                .enumerate()
-                .map(|(i, (p, pos))| if *pos as usize == i && (*p == 1 || *p == 2) { Some(*p) } else { None })
-                .collect(),
+    recombine_vec_kind(0, two_point, tuple, n1, n2, rng)
+}
+
+fn recombine_vec_kind<R: rand::Rng>(kind: u8, two_point: bool, tuple: bool, n1: usize, n2: usize, rng: &mut R) -> RecOut {
+    fn go<T: Clone, R: rand::Rng>(mk: impl Fn(u8, u32) -> T, un: impl Fn(&T) -> (u8, u32), two_point: bool, tuple: bool, n1: usize, n2: usize, rng: &mut R) -> RecOut {
+        let p1: Vec<T> = (0..n1 as u32).map(|i| mk(1, i)).collect();
+        let p2: Vec<T> = (0..n2 as u32).map(|i| mk(2, i)).collect();
+        let r = match (two_point, tuple) {
+            (true, false) => TwoPointXo.recombine([p1, p2], rng),
+            (true, true) => TwoPointXo.recombine((p1, p2), rng),
+            (false, false) => UniformXo.recombine([p1, p2], rng),
+            (false, true) => UniformXo.recombine((p1, p2), rng),
+        };
+        match r {
+            Ok(child) => RecOut::Child(
+                child
+                    .iter()
+                    .enumerate()
+                    .map(|(i, g)| {
+                        let (p, pos) = un(g);
+                        if pos as usize == i && (p == 1 || p == 2) { Some(p) } else { None }
+                    })
+                    .collect(),
+            ),
+            Err(e) => RecOut::LenErr(e.0, e.1),
+        }
+    }
+    match kind % GENE_KINDS {
+        0 => go(|p, i| -> Tag { (p, i) }, |g| *g, two_point, tuple, n1, n2, rng),
+        1 => go(|p, i| (p, i, [u64::from(i); 3]), |g| (g.0, g.1), two_point, tuple, n1, n2, rng),
+        2 => go(
+            |p, i| format!("{p}:{i}"),
+            |g: &String| {
+                let mut it = g.split(':');
+                (it.next().and_then(|x| x.parse().ok()).unwrap_or(0), it.next().and_then(|x| x.parse().ok()).unwrap_or(u32::MAX))
+            },
+            two_point,
+            tuple,
+            n1,
+            n2,
+            rng,
         ),
-        Err(e) => RecOut::LenErr(e.0, e.1),
+        _ => go(|p, i| Box::new((p, i)), |g: &Box<(u8, u32)>| **g, two_point, tuple, n1, n2, rng),
     }
 }
 
@@ -158,8 +191,12 @@ pub fn oracle(case: &Case, probe: &mut Probe) -> Result<(), Fail> {
             p1,
             p2,
             script,
+            gene,
         } => {
             let name = impl_name(*two_point, *bits, *tuple);
+            if !*bits {
+                probe.label(format!("Vec genes of type {}", GENE_KIND_NAMES[usize::from(*gene % GENE_KINDS)]));
+            }
             let n1 = p1.len();
             let p2v: Vec<bool> = p2.clone().unwrap_or_else(|| p1.iter().map(|b| !b).collect());
             let n2 = p2v.len();
@@ -168,7 +205,7 @@ pub fn oracle(case: &Case, probe: &mut Probe) -> Result<(), Fail> {
                 if *bits {
                     recombine_bits(*two_point, *tuple, p1, &p2v, &mut rng).0
                 } else {
-                    recombine_vec(*two_point, *tuple, n1, n2, &mut rng)
+                    recombine_vec_kind(*gene, *two_point, *tuple, n1, n2, &mut rng)
                 }
             });
             let out = match out {
@@ -340,6 +377,7 @@ pub fn strategy(max_len: usize) -> BoxedStrategy<Case> {
                 p1,
                 p2,
                 script,
+                gene: (s % u64::from(GENE_KINDS)) as u8,
             }
         });
     let small = || prop::collection::vec(any::<bool>(), 0..=8);
@@ -359,9 +397,10 @@ pub fn strategy(max_len: usize) -> BoxedStrategy<Case> {
 /// every interval [a,b) with 0 <= a < b <= len, and the empty segment, must occur over seeds
 fn two_point_coverage(ctx: &mut Ctx) {
     let n_seeds = ctx.tier.pick(20_000u64, 400_000);
-    for bits in [false, true] {
+    for (bits, kind) in [(false, 0u8), (false, 1), (false, 2), (false, 3), (true, 0)] {
         for len in 0usize..=6 {
             let name = impl_name(true, bits, false);
+            let genes = if bits { String::new() } else { format!(" (genes of type {})", GENE_KIND_NAMES[usize::from(kind)]) };
             let sub = "two_point_segment_coverage";
             let mut seen = std::collections::BTreeSet::new();
             let mut failure: Option<Fail> = None;
@@ -373,13 +412,13 @@ fn two_point_coverage(ctx: &mut Ctx) {
                     if bits {
                         recombine_bits(true, false, &p1, &p2, &mut rng).0
                     } else {
-                        recombine_vec(true, false, len, len, &mut rng)
+                        recombine_vec_kind(kind, true, false, len, len, &mut rng)
                     }
                 });
                 match out {
                     Err(p) => {
                         let aspect = if len == 0 { "panic-empty" } else { "panic" };
-                        failure = Some(Fail::new(format!("{name}/{aspect}"), format!("two-point crossover of two parents of length {len} panicked: {p}")));
+                        failure = Some(Fail::new(format!("{name}/{aspect}"), format!("two-point crossover of two parents of length {len}{genes} panicked: {p}")));
                         break;
                     }
                     Ok(RecOut::Child(src)) => {
@@ -422,15 +461,15 @@ fn two_point_coverage(ctx: &mut Ctx) {
                 };
                 failure = Some(Fail::new(
                     format!("{name}/{aspect}"),
-                    format!("over {n_seeds} seeded crossovers of {len}-gene parents the second parent never contributed the segment(s) {missing:?} (half-open position ranges); each admissible segment has probability >= 1/{} under uniform cut points", (len + 1) * (len + 1)),
+                    format!("over {n_seeds} seeded crossovers of {len}-gene parents{genes} the second parent never contributed the segment(s) {missing:?} (half-open position ranges); each admissible segment has probability >= 1/{} under uniform cut points", (len + 1) * (len + 1)),
                 ));
             }
             if len >= 1 {
-                ctx.note_nontrivial(crate::fnv(&format!("cov{bits}{len}")));
+                ctx.note_nontrivial(crate::fnv(&format!("cov{bits}{kind}{len}")));
             }
-            ctx.add_label(sub, &format!("{name} len {len}: {} of {} segments seen", seen.len().min(expected.len()), expected.len()), 1);
+            ctx.add_label(sub, &format!("{name}{genes} len {len}: {} of {} segments seen", seen.len().min(expected.len()), expected.len()), 1);
             if let Some(f) = failure {
-                ctx.violation(sub, &f, json!({"impl": name, "len": len, "seeds": n_seeds}));
+                ctx.violation(sub, &f, json!({"impl": name, "len": len, "seeds": n_seeds, "gene_kind": kind}));
             }
         }
     }
@@ -602,7 +641,7 @@ fn uniform_independence_long(ctx: &mut Ctx) {
 }
 
 pub fn run(ctx: &mut Ctx) {
-    ctx.rule = "generated parent pairs (tagged (parent, position) vectors; complementary or random bitstrings) of equal and different lengths through TwoPointXo / UniformXo in all four impls x array/tuple forms with a generated random stream; generated crossover_gene / crossover_segment calls with indices around both lengths, usize::MAX and inverted ranges; plus a second pass with parents of up to 700 genes, seeded coverage of all two-point segments for len <= 6 and of the segment classes (touching the start, touching the end, empty, strictly inside) for len 33..257 the exact 2^-len law of uniform-crossover source patterns for len <= 4, and on parents of 70 / 130 / 520 genes the per-position rate 1/2 and the agreement law 1/2 of disjoint position pairs at lags 1..257 (independence at a distance). non-trivial = len >= 2 and the child mixes both parents, or any misuse / primitive case; distinct by JSON encoding".into();
+    ctx.rule = "generated parent pairs (tagged (parent, position) vectors with four gene types of different width and ownership; complementary or random bitstrings) of equal and different lengths through TwoPointXo / UniformXo in all four impls x array/tuple forms with a generated random stream; generated crossover_gene / crossover_segment calls with indices around both lengths, usize::MAX and inverted ranges; plus a second pass with parents of up to 700 genes, seeded coverage of all two-point segments for len <= 6 and of the segment classes (touching the start, touching the end, empty, strictly inside) for len 33..257 the exact 2^-len law of uniform-crossover source patterns for len <= 4, and on parents of 70 / 130 / 520 genes the per-position rate 1/2 and the agreement law 1/2 of disjoint position pairs at lags 1..257 (independence at a distance). non-trivial = len >= 2 and the child mixes both parents, or any misuse / primitive case; distinct by JSON encoding".into();
     ctx.assumptions.push("coverage check assumes every admissible two-point segment has probability >= 1/(len+1)^2; contents after an Err are not checked; an inverted range may return Ok (unchanged) or Err".into());
     let (n, max_len) = ctx.tier.pick((150_000u32, 60usize), (3_000_000, 500));
     ctx.run_prop("generated_cases", n, move || strategy(max_len), oracle);
